@@ -47,31 +47,7 @@ func demotionClearsRule(c *Ctx, rule string) {
 				return
 			}
 			n++
-			var foreign []string
-			seen := map[string]bool{}
-			for _, l := range append(append([]Lit{}, m.GuardsAt(in)...), m.controlCondsDeep(in, 0)...) {
-				str := l.S.String()
-				switch {
-				case m.isClaimLoadSym(l.S) || m.isClaimValueSym(l.S):
-				case m.isTermIdentityLit(l):
-				case !strings.Contains(str, m.ImplName+"."):
-					// arguments, locals, results of pure helpers on them
-				case func() bool {
-					rest := str
-					for _, okf := range []string{m.path(m.State), m.path(m.TermCtx), m.path(m.Claim)} {
-						if okf != "" {
-							rest = strings.ReplaceAll(rest, okf, "")
-						}
-					}
-					return !strings.Contains(rest, m.ImplName+".")
-				}():
-				default:
-					if !seen[str] {
-						seen[str] = true
-						foreign = append(foreign, l.String())
-					}
-				}
-			}
+			foreign := m.clearForeignConds(in)
 			c.check(len(foreign) == 0, rule, "a demotion request clears the claim in "+shortFn(u), in,
 				"conditions on other state of the election that decide whether the claim is cleared: %v", foreign)
 		})
@@ -79,6 +55,49 @@ func demotionClearsRule(c *Ctx, rule string) {
 	if n == 0 {
 		c.undecided(rule, "claim clear outside the stop units", nil, "no Store(false) of the claim found outside the stop units")
 	}
+}
+
+// clearForeignConds: the conditions deciding whether the claim Store(false) `in` executes that test
+// state of the election other than the claim, the term identity and the state word.
+func (m *Model) clearForeignConds(in ssa.Instruction) []string {
+	var foreign []string
+	seen := map[string]bool{}
+	for _, l := range append(append([]Lit{}, m.GuardsAt(in)...), m.controlCondsDeep(in, 0)...) {
+		str := l.S.String()
+		switch {
+		case m.isClaimLoadSym(l.S) || m.isClaimValueSym(l.S):
+		case m.isTermIdentityLit(l):
+		case !strings.Contains(str, m.ImplName+"."):
+			// arguments, locals, results of pure helpers on them
+		case func() bool {
+			rest := str
+			for _, okf := range []string{m.path(m.State), m.path(m.TermCtx), m.path(m.Claim)} {
+				if okf != "" {
+					rest = strings.ReplaceAll(rest, okf, "")
+				}
+			}
+			return !strings.Contains(rest, m.ImplName+".")
+		}():
+		default:
+			if !seen[str] {
+				seen[str] = true
+				foreign = append(foreign, l.String())
+			}
+		}
+	}
+	return foreign
+}
+
+// clearUnitClears: every Store(false) of the claim in the (non-stop) clear unit g is free of such
+// conditions: reaching g with a standing claim and the right term means the claim is cleared.
+func (m *Model) clearUnitClears(g *ssa.Function) bool {
+	ok := true
+	eachInstr(g, func(in ssa.Instruction) {
+		if val, isConst, isSt := m.claimStore(in); isSt && isConst && !val && len(m.clearForeignConds(in)) > 0 {
+			ok = false
+		}
+	})
+	return ok
 }
 
 func checkC04(c *Ctx) {
